@@ -246,6 +246,27 @@ func runC07(t *testing.T, spec RunSpec) *RunResult {
 				base = append([]uint16(nil), cfg.Universe...)
 			case 5: // empty
 				return nil
+			case 6, 7:
+				// a list of exactly the expected length made only of identifiers the victim will have in its own
+				// view (the invokers and myself), with a repetition in place of one of them. The list depends on
+				// (b, topic, kind) only, so that b's announcements, queries and confirmations carry the same one.
+				base = append(base, b)
+				sort.Slice(base, func(i, j int) bool { return base[i] < base[j] })
+				h := prng.Hash64([]byte(tp.Name), []byte{byte(b), byte(b >> 8), byte(kind)})
+				if len(base) >= 2 {
+					d := int(h % uint64(len(base)))
+					u := (d + 1 + int((h>>8)%uint64(len(base)-1))) % len(base)
+					base[d] = base[u]
+				}
+				for len(base) > tp.Expected && len(base) > 0 {
+					base = base[:len(base)-1]
+				}
+				for len(base) < tp.Expected && len(base) > 0 {
+					base = append(base, base[int(h>>16)%len(base)])
+				}
+				if kind == 7 {
+					return base // in the order it came out (possibly unsorted)
+				}
 			}
 			sort.Slice(base, func(i, j int) bool { return base[i] < base[j] })
 			return base
@@ -266,7 +287,7 @@ func runC07(t *testing.T, spec RunSpec) *RunResult {
 				}
 				victim := tp.Invokers[int((x>>16)%uint64(len(tp.Invokers)))]
 				typ := byte(1 + (x>>24)%3)
-				kind := int((x >> 28) % 6)
+				kind := int((x >> 28) % 8)
 				claimed := b
 				tagKind := "own"
 				if (x>>32)%5 == 0 {
